@@ -401,16 +401,23 @@ ares_status_t ares_cookie_validate(ares_query_t            *query,
     return ARES_EBADRESP;
   }
 
-  if (resp_cookie && resp_cookie_len > 8) {
+  /* Only a response to the client cookie currently on file tells us something
+   * about the current cookie state.  If the client cookie was rotated or the
+   * state was reset (cleared) by another response since this request went out,
+   * flipping to SUPPORTED here would leave us "supported" with a zeroed, never
+   * generated (and therefore predictable) client cookie that is then sent in
+   * every following request. */
+  if (resp_cookie && resp_cookie_len > 8 &&
+      (cookie->state == ARES_COOKIE_GENERATED ||
+       cookie->state == ARES_COOKIE_SUPPORTED) &&
+      memcmp(cookie->client, req_cookie, sizeof(cookie->client)) == 0) {
     /* Make sure we record that we successfully received a cookie response */
     cookie->state = ARES_COOKIE_SUPPORTED;
     memset(&cookie->unsupported_ts, 0, sizeof(cookie->unsupported_ts));
 
-    /* If client cookie hasn't been rotated, save the returned server cookie */
-    if (memcmp(cookie->client, req_cookie, sizeof(cookie->client)) == 0) {
-      cookie->server_len = resp_cookie_len - 8;
-      memcpy(cookie->server, resp_cookie + 8, cookie->server_len);
-    }
+    /* Save the returned server cookie */
+    cookie->server_len = resp_cookie_len - 8;
+    memcpy(cookie->server, resp_cookie + 8, cookie->server_len);
   }
 
   if (ares_dns_record_get_rcode(dnsresp) == ARES_RCODE_BADCOOKIE) {
